@@ -16,7 +16,7 @@ EXPLANATION = (
     "constants, a*x^b with a>0, b<0) shows the reading is non-increasing in the voltage; C17.O4 the unclamped reading has the "
     "power-law normal form a*v^b with exactly the constants of the statement, one driver per law; C17.O5 every path of the sim's "
     "setDistance stores the raw distance, and sets the voltage ((clamp(d))/a)^(e) with the driver's own clamp literals, the same a, "
-    "and e*b == 1 exactly - the algebraic inverse of the driver's law; getDistance returns the stored raw value."
+    "and e*b == 1 exactly - the algebraic inverse of the driver's law; getDistance returns the stored raw value.  C17.O6 a reading of one sensor equals its own formula also after a sensor of any model was read at the same voltage in the same interpreter (nothing is shared between sensors)."
 )
 RULE = "one obligation per (sensor model, rule); all inputs covered symbolically (intervals over the whole real line)"
 EXHAUSTIVE = True
